@@ -18,6 +18,7 @@ DOC = {
         'C16.R3': 'every string fragment glob_to_regex emits for an operator starts with a character of the stop set (magic_chars + {?,*}); literal characters go through escape()',
         'C16.R4': 'the fixed prefix is lower-cased iff is_partial_match lower-cases the candidate (both controlled by case_insensitive)',
         'C16.R6': 'Pattern::regex_with anchors the full-match regex at both ends (^...$) and the prefix regex at the start (^...); matches / matches_partially use the anchored one, matches_prefix the prefix one',
+        'C16.R13': 'the characters between `[` and `]` of a glob are translated, not copied, into the regex class: the closures that emit `[..]` / `[^..]` pass the characters through an escaping function that knows the characters a regex class treats specially (`[`, `&`, `~`, `^`, `\\`, `--`)',
         'C16.R12': 'get_fixed_prefix: every quantifier that can make the preceding character optional - `?`, `*` and a counted repetition `{` - removes that character from the fixed prefix before stopping',
         'C16.R11': 'case folding survives pattern composition: a Pattern built from other Patterns (base directory + relative pattern, impl Add) is compiled with a case option derived from its operands, not with the defaults',
         'C16.R10': '`**` crosses every character a path can contain: the fragment emitted for `**` is `.*`, so the regex must be built with dot_matches_new_line(true) (or the fragment must carry its own (?s) flag); `*` and `?` are negated classes and match a newline anyway',
@@ -47,6 +48,7 @@ def run(ctx):
     r10(ctx, lib)
     r11(ctx, lib)
     r12(ctx, lib)
+    r13(ctx, lib)
     if ctx.tier == 'thorough' and not getattr(ctx, 'sibling', None):
         from .. import sweep
         sweep.units(ctx, 'C16.R1')
@@ -453,3 +455,34 @@ def r12(ctx, lib):
     ctx.check(want <= covered, rule, b.path + '|optional-makers', erase[0].where(), 'the previous character is erased before %s' % sorted(want),
               'the previous character is erased only before %s: a counted repetition `{0,1}` / `{0,}` makes it optional as well, but `{` merely ends the prefix, so with --regex --path "/T/ab{0,1}/.*" '
               'the directory /T/a is pruned although /T/a/f matches' % sorted(covered & want))
+
+
+def r13(ctx, lib):
+    rule = 'C16.R13'
+    g = ctx.need_body(rule, 'pattern::Pattern::glob_to_regex')
+    if g is None:
+        return
+    n = 0
+    for cp in lib.closures_of(g.path):
+        cb = lib.body(cp)
+        consts = [const_val(o) or '' for blk in cb.blocks for st in blk['stmts'] for o in ([st['rv'].get('op')] if isinstance(st['rv'].get('op'), dict) else [])] + [const_val(a) or '' for c in cb.calls() for a in c.args]
+        opens = [v for v in consts if v.strip('const ').strip('"') in ('[', '[^')]
+        if not opens or not any('Vec<char>' in (l.get('ty') or '') for l in cb.raw.get('locals', [])[:cb.argc + 1]):
+            continue        # `*` and `?` emit a constant class [^/]; only the closures that receive the parsed characters matter
+        n += 1
+        raw = cb.calls(r'FromIterator<char>>::from_iter$|Iterator::collect$|Iterator>::collect$')
+        esc = [c for c in cb.calls() if c.f.get('local') and lib.body(c.path) is not None]
+        knows = False
+        for c in esc:
+            eb = lib.body(c.path)
+            vals = set()
+            for blk in eb.blocks:
+                t = blk['term']
+                if t['k'] == 'switch':
+                    vals |= set(t['vals'])
+            if {ord('['), ord('&'), ord('~')} <= vals:
+                knows = True
+        ctx.check(knows and not raw, rule, cp + '|class-contents-escaped', cb.where(), 'the class contents pass an escaping function that handles [ & ~ ^ \\ and --',
+                  'the characters of a glob class are collected into the regex class verbatim: the regex crate reads `&&` as intersection, `~~` as symmetric difference, `--` as difference, `\\d` / `\\w` as Perl '
+                  'classes and `[` as a nested class, so `--name "[a&&b]"` selects nothing, `[\\d]` selects digits instead of d, and `[[]` is rejected')
+    ctx.floor(rule, 'closures emitting a regex character class', n, 2, g.where())
